@@ -142,6 +142,10 @@ func deref(s *string) string {
 // create-event auth rule ignores that member accept such a room).
 var simCreateVersionOverride string
 
+// simExtraCreatorOverride, when set, is the second creator of every room of a version with privileged creators (instead
+// of a random choice between none, a user of the origin server and a user of another one).
+var simExtraCreatorOverride string
+
 // simInitialPowerLevels, when set, supplies the content of the room's first power-levels event (the only one in which
 // the creator can give anybody, themselves included, any level whatever).
 var simInitialPowerLevels func(creator string) *ref.Value
@@ -152,7 +156,10 @@ func newSim(r *gen.Rand, ver gmsl.RoomVersion) (*sim, *simBranch) {
 	creator := simUsers[0]
 	cc := ref.O("creator", ref.S(creator), "room_version", ref.S(string(ver)))
 	extraCreator := ""
-	if t.PrivCreators && r.Chance(0.5) {
+	if t.PrivCreators && simExtraCreatorOverride != "" {
+		extraCreator = simExtraCreatorOverride
+		cc.Set("additional_creators", ref.A(ref.S(extraCreator)))
+	} else if t.PrivCreators && r.Chance(0.5) {
 		// a second creator: a user of the origin server or of another one
 		extraCreator = simUsers[1]
 		if r.Chance(0.5) {
